@@ -51,13 +51,21 @@ impl Rng {
     /// uniform in 0..n (n > 0)
     #[inline]
     pub fn below(&mut self, n: u64) -> u64 {
-        debug_assert!(n > 0);
+        if n == 0 {
+            // degenerate request from a generator fed with absurd (but accepted) configurations
+            self.next();
+            return 0;
+        }
         // multiply-shift; bias is irrelevant here
         ((self.next() as u128 * n as u128) >> 64) as u64
     }
     #[inline]
     pub fn range(&mut self, lo: u64, hi_incl: u64) -> u64 {
-        lo + self.below(hi_incl - lo + 1)
+        if hi_incl <= lo {
+            self.next();
+            return lo;
+        }
+        lo + self.below((hi_incl - lo).saturating_add(1))
     }
     #[inline]
     pub fn chance(&mut self, p: f64) -> bool {
